@@ -198,7 +198,7 @@ impl Prop for C04 {
     fn budget(tier: Tier) -> Budget {
         match tier {
             Tier::Quick => Budget { cases: 3200, shards: 16 },
-            Tier::Thorough => Budget { cases: 25600, shards: 16 },
+            Tier::Thorough => Budget { cases: 179200, shards: 16 },
         }
     }
 
